@@ -233,6 +233,7 @@ class Interp:
         sub._depth = getattr(self, '_depth', 0) + 1
         sub.member_range = self.member_range
         sub.exact_seqs, sub.carry_vecs = self.exact_seqs, self.carry_vecs
+        sub.carry_env, sub.carry_exact = self.carry_env, self.carry_exact
         env = {}
         states = [St(env, st.heap, st.ev, st.pc, st.ctr)]
         for p, a in zip(rec['params'], args):
@@ -941,6 +942,13 @@ class Interp:
                           # split_last / windows (literal evaluation of list-valued code; off by default: rules that read the
                           # *generic element* of an adaptor over a `vec![]` local keep seeing it)
     carry_vecs = False    # (set on an instance) local vectors pushed to in a loop body are loop-carried too, see carried_states
+    carry_env = False     # (set on an instance) loop-carried locals are found on the *paths* of the body as well: a local bound outside
+                          # the loop whose value at a back edge is not the value it entered the loop with is carried, whatever changed it
+                          # (an assignment, a push / pop / truncate on an owned vector, any model that rebinds the local); and a carried
+                          # value that is not a literal is kept exactly for the first `carry_exact` values (the entry value and what one
+                          # trip around the loop makes of it) before the rest is widened to an unknown, so that a rule can say *what*
+                          # arrives at the loop head the second time
+    carry_exact = 2
 
     def carried_states(self, loop, st, runner, keep_initial=False):
         """The generic iteration of a loop starts in any state an earlier iteration can leave behind.  Candidates are the locals
@@ -966,6 +974,20 @@ class Interp:
                     if r.get('k') == 'Path' and r.get('res') == 'local' and r['bind'] not in cand \
                             and st.env.get(r['bind'], ('unk',))[0] in ('vec', 'vecpush', 'carried'):
                         cand.append(r['bind']); isbool[r['bind']] = False; wide.add(r['bind'])
+        if self.carry_env:
+            # read off the paths: run the body once from the entry state and compare, at every back edge, what the locals that
+            # were bound before the loop hold with what they held at entry (sound as a *discovery* of candidates: the fixpoint below
+            # then follows each of them around the loop as often as it takes)
+            self.in_fixpoint = getattr(self, 'in_fixpoint', 0) + 1
+            try:
+                back0 = runner(st)
+            finally:
+                self.in_fixpoint -= 1
+            for sb in back0:
+                for b, v0 in st.env.items():
+                    if b not in cand and b in sb.env and sb.env[b] != v0:
+                        d = self.body.defs.get(b) or {}
+                        cand.append(b); isbool[b] = hirq.strip_refs(((d.get('pat') or {}).get('ty')) or '') == 'bool'
         if not cand:
             return [st]
         cand.sort()
@@ -981,7 +1003,12 @@ class Interp:
                         u, s2 = s.fresh('carried')
                         t = ('carried', b, u[2])
                         nxt.append(s2.set(b, t).event(('loop-carried', b, t, loop, st.env[b])) if events else s2.set(b, t))
-                        if keep_initial and events:
+                        if self.carry_env and events:
+                            # ... and the values the first trips around the loop were seen to leave, exactly (the unknown stands for
+                            # all later ones)
+                            for v in vals[b]:
+                                nxt.append(s.set(b, v).event(('loop-carried', b, v, loop, st.env[b])))
+                        elif keep_initial and events:
                             # the first iteration (and the exit after none) sees the exact initial value
                             nxt.append(s.event(('loop-carried', b, st.env[b], loop, st.env[b])))
                     else:
@@ -1010,6 +1037,8 @@ class Interp:
                             for x in (FALSE, TRUE):
                                 if x not in vals[b]:
                                     vals[b].append(x); changed = True
+                        elif self.carry_env and len(vals[b]) < self.carry_exact:
+                            vals[b].append(v); changed = True
                         else:
                             wide.add(b); changed = True
             if not changed:
